@@ -64,9 +64,14 @@ def gen_repo(rng, root):
         open(os.path.join(root, 'metadata', rng.choice(['timestamp', 'timestamp.chk', 'timestamp.x', 'timestamp.commit'])), 'w').write('t')
     if rng.random() < 0.3:
         open(os.path.join(root, 'metadata', 'glsa', rng.choice(['timestamp.chk', 'timestamp.commit'])), 'w').write('t')
-    if rng.random() < 0.3:
-        os.makedirs(os.path.join(root, 'eclass', '.git'), exist_ok=True)
-        open(os.path.join(root, 'eclass', '.git', 'HEAD'), 'w').write('ref')
+    if rng.random() < 0.5:
+        # several dot-directories side by side (they are pruned from the walk one after the other), next to ordinary ones
+        where = rng.choice(['eclass', 'licenses', 'profiles', 'metadata/dtd'])
+        for dn in rng.sample(['.git', '.svn', '.hg', '.idea', '.cache'], rng.randint(1, 4)):
+            os.makedirs(os.path.join(root, where, dn), exist_ok=True)
+            open(os.path.join(root, where, dn, 'HEAD'), 'w').write('ref ' + dn)
+        os.makedirs(os.path.join(root, where, 'zz-visible'), exist_ok=True)
+        open(os.path.join(root, where, 'zz-visible', 'v'), 'w').write('v')
     if rng.random() < 0.3:
         open(os.path.join(root, 'licenses', '.hidden'), 'w').write('h')
     if rng.random() < 0.3:
@@ -368,9 +373,11 @@ def single_case(ctx, drv, gfm):
         else:
             for i in range(rng.randint(0, 4)):
                 w(rng.choice(['a', 'b.txt', 'README', 'files/x', 'sub/y', 'sub/deep/z', 'Makefile', 'x.ebuild.bak']), os.urandom(rng.randint(0, 40)))
-        if rng.random() < 0.3:
+        if rng.random() < 0.4:
             w('.hidden', b'h')
-            w('.git/HEAD', b'ref')
+            for dn in rng.sample(['.git', '.svn', '.hg', '.idea'], rng.randint(1, 4)):
+                w(dn + '/HEAD', b'ref')
+            w('vis/inner', b'visible')
         # outside the property's scope (a file merely named Manifest*, timestamp files that no Manifest IGNOREs):
         # the generators skip them, the verifier reports them - model/code correspondence only
         excluded = False
